@@ -37,13 +37,13 @@ ASSUMPTIONS = ["base names are unique within a tree", "for the format converter 
                "must still be untouched", "odmlconvert skips files that are already odML 1.1"]
 
 KINDS = ["v10_xml", "v10_json", "v10_yaml", "v11_xml", "v11_json", "v11_yaml", "empty", "text",
-         "malformed", "other_vocab"]
-BAD = {"empty", "text", "malformed", "other_vocab"}
+         "malformed", "other_vocab", "v10_nameless_section"]
+BAD = {"empty", "text", "malformed", "other_vocab", "v10_nameless_section"}
 EXT = {"v10_xml": [".xml", ".odml"], "v10_json": [".json"], "v10_yaml": [".yaml"],
        "v11_xml": [".xml", ".odml"], "v11_json": [".json"], "v11_yaml": [".yaml"]}
 RDF_FORMATS = ["xml", "pretty-xml", "n3", "turtle", "ttl", "ntriples", "nt", "nt11", "trig", "json-ld"]
-DIRNAMES = ["in", "in put", "in+put", "data(1)", "a.b", "x[1]", "ünï"]
-SUBDIRS = ["sub", "s+1", "deep er"]
+DIRNAMES = ["in", "in put", "in+put", "data(1)", "a.b", "x[1]", "ünï", "100%dir", "a%sb"]
+SUBDIRS = ["sub", "s+1", "deep er", "p%s", "only dirs/nested"]
 
 
 @st.composite
@@ -51,8 +51,12 @@ def file_spec(draw, i):
     kind = draw(st.sampled_from(KINDS + ["v10_json", "v10_yaml", "v10_xml"]))
     ext = draw(st.sampled_from(EXT.get(kind, [".xml", ".json", ".yaml", ".odml"])))
     f = {"kind": kind, "ext": ext, "key": draw(st.integers(0, 9)), "i": i,
-         "dir": draw(st.sampled_from([[], [], [0], [1], [0, 2]]))}
-    if kind.startswith("v10"):
+         "dir": draw(st.sampled_from([[], [], [0], [1], [0, 2], [3], [4]])),
+         "pct": draw(st.booleans())}
+    if kind == "v10_nameless_section":
+        f["doc"] = draw(conv10.doc10(1))
+        f["ext"] = draw(st.sampled_from([".xml", ".odml"]))
+    elif kind.startswith("v10"):
         f["doc"] = draw(conv10.doc10(1))
         f["native"] = draw(st.booleans())
     elif kind.startswith("v11"):
@@ -85,10 +89,13 @@ def write_tree(case, root):
         for k in f["dir"]:
             d = os.path.join(d, SUBDIRS[k])
         os.makedirs(d, exist_ok=True)
-        name = "%d_f%d%s" % (f["key"], f["i"], f["ext"])
+        name = "%d_f%d%s%s" % (f["key"], f["i"], "%d" if f.get("pct") else "", f["ext"])
         path = os.path.join(d, name)
         kind = f["kind"]
-        if kind == "v10_xml":
+        if kind == "v10_nameless_section":
+            # an old-version file that cannot be converted: named Sections, then one without a name
+            data = conv10.emit_xml(f["doc"]).replace("</odML>", "  <section><type>t</type></section>\n</odML>")
+        elif kind == "v10_xml":
             data = conv10.emit_xml(f["doc"])
         elif kind == "v10_json":
             data = conv10.emit_json(f["doc"], f.get("native", False))
@@ -138,6 +145,8 @@ def tree_state(root):
 
 
 def accepted_by(tool, target, kind):
+    if kind in BAD:
+        return False
     if tool == "odmlconvert":
         return kind.startswith("v10")
     if tool == "odmltordf":
